@@ -63,7 +63,7 @@ def pipeline(samples_by_name, framework="pydantic", layout="flat", gen_kwargs=No
 
 
 # ------------------------------------------------------------------------------------------------ sample domains
-SCALARS = [1, 2.5, True, None, "abc", "xyz", "12", "1.5", "true", "cafe\u0301", "\u212b"]
+SCALARS = [1, 2.5, True, None, "abc", "xyz", "", "12", "1.5", "true", "cafe\u0301", "\u212b"]
 CONTAINERS = [[], {}, [1], [None], ["abc", 2], [1, 2.5], [[]], [{"k": 1}], {"k": 1}, {"k": None}, {"k": 1, "m": "s"}, [{"k": 1}, {"m": 2}]]
 VALUES = SCALARS + CONTAINERS
 
